@@ -1266,7 +1266,7 @@ def gen_clt(tier, rng):
         for cut in range(0, len(whole) + 1, 7 if quick else 1):
             yield Case(clt_line(whole[:cut], push, tcp), cls="clt-trunc")
     # --- status codes, at every step
-    codes = [b"200", b"201", b"100", b"302", b"400", b"401", b"404", b"454", b"461", b"500", b"551", b"", b"abc", b"4 01", b"0401", b"401x", b"99999999999999999999", b"-1"]
+    codes = [b"200", b"201", b"100", b"302", b"400", b"401", b"403", b"407", b"402", b"404", b"454", b"461", b"500", b"551", b"", b"abc", b"4 01", b"0401", b"401x", b"99999999999999999999", b"-1"]
     for code in codes:
         bad = rsp(code=code, hdrs=[(b"Location", b"rtsp://elsewhere/x"), (b"WWW-Authenticate", b'Basic realm="r"')])
         good_setup = rsp(hdrs=[(b"Transport", b"RTP/AVP/TCP;unicast;interleaved=0-1;server_port=1-2"), (b"Session", b"s")])
@@ -1700,7 +1700,7 @@ def nontrivial(c, out):
     if f[0] == "c13.rtspcmd":
         o = out.split(" ")
         evs = o[1].split(";") if len(o) > 2 and o[1] != "-" else []
-        shape = ",".join(e if e.startswith("cb:") else e.split(":")[2][:12] for e in evs[:8])
+        shape = ",".join(e if e.startswith("cb:") else e.split(":")[0] + e.split(":")[2][:12] for e in evs[:8])
         return "%s|%s|%s|%s|%s|%s" % (c.cls, "".join(f[1:3]) + f[4] + ("s" if len(f[3]) > 6 else f[3][:2]), outcome_class(out), shape, len(evs), o[-2].split(":")[0] if len(o) > 3 else "")
     if f[0] in ("c13x.udpsess", "c13x.pulludp"):
         return "%s|%s/%s|%s|%d" % (f[0], f[1], f[4], outcome_class(out), min(f[7].count(","), 8))
@@ -1720,6 +1720,12 @@ def oracle(c, out):
             return (out == "err", "malformed RTP packet must be refused with an error, got: " + out[:80])
         o = out.split(" ")
         return (o[0] == "ok" and tok_bytes(o[-1]) == want, "well-formed RTP packet: payload differs from the RFC 3550 reference")
+    if f[0] == "c13.rtspclt":
+        # the upstream has said all it will say and closed its side: the session has to be over (Start failed, or the
+        # session reported as ended) unless it waits for the GET_PARAMETER keep-alive, which takes a server that announced it
+        if out.endswith(" running") and b"GET_PARAMETER" not in tok_bytes(f[6]):
+            return (False, "the rtsp client session is neither over nor running a keep-alive: its read loop spins or its end was never reported")
+        return (True, "")
     if f[0] == "c13.rtspcmd":
         # closing that session only: nothing the requests made lal open may outlive the session
         leak = out.rsplit("leak:", 1)
